@@ -83,6 +83,18 @@ func c12Run(c *core.Ctx, idx int) {
 		})
 		c.Count("trees.with-node-closures")
 	}
+	if idx%4 == 3 {
+		// some nested instances are frozen once built (holding their nil elements): whatever a parent's Defrag, Reveal or
+		// Transfer does about a nested read-only instance, it does the same for every form of it
+		root := true
+		nat.Walk(func(n *TNode) {
+			if (n.T == "stack" || n.T == "cond") && !root && r.Chance(1, 3) {
+				n.ReadOnly = true
+			}
+			root = false
+		})
+		c.Count("trees.with-nested-read-only")
+	}
 	ali := nat.Clone()
 	aliases, condExprAliases := 0, 0
 	var assign func(n *TNode, root bool, inCond bool)
